@@ -91,6 +91,11 @@ CHECKS = {
                 text="Every std::fs/io/process/env/net/os callee of both local crates is inventoried; the only write-capable one is fs::write to the literal "
                      "solstat_report.md, on every path through generate_report and main, after the analysis; analysis code is read-only.",
                 note=_MIR + "; std::fs::write truncates; dependencies do not write files"),
+    "C19": dict(level="other", design_ref="5/C19", technique="cross-item channel analysis: loop-carried state / early exits / search roots per loop, and scope of the bound witnesses in each extracted report condition (static analysis)",
+                text="For every detector except the two SafeMath ones (and the helpers they reach): file-wide loops carry no mutable state and run to exhaustion, "
+                     "no whole-file search sits inside a per-item loop, and every witness a report condition quantifies over is reached from the reported node's own "
+                     "top-level item; the remaining file-wide inputs are the pragma lookup, name-keyed state-variable tables and identity-keyed location sets.",
+                note=_MIR + "; items do not share state-variable names (property quantifier); C01"),
 }
 
 NOT_APPLICABLE = {}
